@@ -213,8 +213,10 @@ class Engine:
                 o["naming"] = T.weighted([(5, "ext"), (1, "explicit_other_ext"),
                                           (1, "explicit_no_ext"),
                                           (1, "explicit_wrong_ext")])
-                o["silence_samples"] = T.choice([0, 0.4, 1, 1.5, 0.6, 2.75,
-                                                 3.5, 7, 100])
+                # (no values whose fractional part is exactly .5: how
+                # round() breaks ties is not fixed by the statement)
+                o["silence_samples"] = T.choice([0, 0.4, 1, 1.4, 0.6, 2.75,
+                                                 3.6, 7, 100])
                 if n <= 12 and sw * ch <= 2 and T.draw(25) == 0:
                     # a gap of more than 2**20 samples (over a minute at
                     # 16 kHz): beyond any plausible internal buffer size
@@ -684,12 +686,33 @@ class Engine:
         served = src.served_bytes()
         max_read = sc["max_read"]
         max_samples = None if max_read is None else round(max_read * sr)
-        natural_end = src.exhausted or (
+        natural_end = src.exhausted or served == data or (
             max_samples is not None and len(served) // bps >= max_samples)
         if stop is None:
             base = data
         else:
             base = served
+            tseen_l = res.get("tok_seen")
+            if tseen_l:
+                # "the part of the stream read up to that moment": what the
+                # tokenizer itself received.  A block still in flight when
+                # the stop arrived may or may not be part of it; everything
+                # read before the request must be.
+                recv = b"".join(b for b in tseen_l if b is not None)
+                if served[:len(recv)] != recv:
+                    return V("C14.2", "the tokenizer received audio that is "
+                             "not a prefix of what the source served",
+                             "C14.2:not_a_prefix")
+                before = sum(len(c) for c, q in zip(src.served,
+                                                    src.served_seq)
+                             if q <= res.get("stop_seq", 0))
+                if len(recv) < before:
+                    return V("C14.2", "%d bytes had been read from the "
+                             "source before the stop was requested, the "
+                             "tokenizer received only %d" % (before,
+                                                             len(recv)),
+                             "C14.2:lost_before_stop")
+                base = recv
         E = C.oracle_regions(base, sr, sw, ch, sc["block_dur"], sc["params"],
                              max_read)
         res["_nd"] = len(E)
@@ -754,16 +777,23 @@ class Engine:
                              c_obs + ":cmd")
                 want = sorted(bytes(r.data) for r in E for _ in range(ncmd))
                 got = []
-                for cmd in calls:
-                    fn = cmd.split(" ", 1)[1]
-                    got.append(C.read_wav(fn)[0])
-                if sorted(got) != want:
+                for content in seams.SYSTEM_FILES:
+                    try:
+                        import io as _io
+                        import wave as _wave
+                        with _wave.open(_io.BytesIO(content), "rb") as w_:
+                            got.append(w_.readframes(w_.getnframes() + 10))
+                    except Exception:
+                        got.append(content)
+                if sorted(got, key=repr) != sorted(want, key=repr):
                     return V(c_obs, "command observer audio differs",
                              c_obs + ":cmd")
             # ---- tokenizer's own list
             c_det = pfx + ".2"
             want = [(i, r.start, r.end, r.duration) for i, r in enumerate(E, 1)]
-            got = [tuple(d) for d in tok.detections]
+            got = [(d.id, d.start, d.end, d.duration)
+                   if hasattr(d, "duration") else tuple(d)[:4]
+                   for d in tok.detections]
             if got != want:
                 return V(c_det, "tokenizer.detections %r != %r" % (got, want),
                          c_det + ":detections")
@@ -779,7 +809,7 @@ class Engine:
                     return V("C12.3", "thread %s not finished" % t.role)
             # ---- C12.5: source read to exhaustion, EOS requested once
             if max_read is None:
-                if not src.exhausted or served != data:
+                if served != data:
                     return V("C12.5", "source not read to exhaustion: served "
                              "%d of %d bytes, eof=%d" % (
                                  len(served), len(data), src.eof_returned))
@@ -843,12 +873,24 @@ class Engine:
                            if e[0] > jseq and e[2] == "src.read"
                            and e[1] == main_role)
                 res["_late_reads"] = late
-                if late > 3:
+                # no numeric bound is promised: only a request that had no
+                # effect at all is judged - at least 8 blocks were still to
+                # come and the stream was nevertheless read to its end
+                before = sum(1 for e in sim.log
+                             if e[0] <= jseq and e[2] == "src.data"
+                             and e[1] == main_role)
+                total_blocks = -(-len(data) // (bsz * bps))
+                if max_samples is not None:
+                    total_blocks = min(total_blocks,
+                                       -(-max_samples // bsz))
+                remaining = total_blocks - before
+                if remaining >= 8 and natural_end and late >= remaining:
                     return V("C14.6", "%d source reads were started after "
                              "the stop request had been published and main "
-                             "was already waiting for the tokenizer (the "
-                             "request was ignored or lost)" % late,
-                             "C14.6:stop_ignored")
+                             "was already waiting for the tokenizer: the "
+                             "whole rest of the stream (%d blocks) was read "
+                             "(the request was ignored or lost)" % (
+                                 late, remaining), "C14.6:stop_ignored")
             if saver is not None:
                 v = self._judge_saver(sc, res, served, saver, V, "C14.4")
                 if v is not None:
@@ -864,14 +906,11 @@ class Engine:
                      "the source served %d" % (len(seen), len(served)),
                      clause + ":seen")
         try:
-            if sc["saver"]["fmt"] == "wav":
-                d, hp = C.read_wav(fn)
-                if hp != (sr, sw, ch):
-                    return V(clause, "saved stream header %r != %r" % (
-                        hp, (sr, sw, ch)), clause + ":header")
-            else:
-                with open(fn, "rb") as f:
-                    d = f.read()
+            d, hp = _read_either(fn, sc["saver"]["fmt"],
+                                 sc["saver"].get("naming", "ext"))
+            if hp is not None and hp != (sr, sw, ch):
+                return V(clause, "saved stream header %r != %r" % (
+                    hp, (sr, sw, ch)), clause + ":header")
         except Exception as e:
             return V(clause, "saved stream file unreadable: %r" % (e,),
                      clause + ":unreadable")
@@ -880,7 +919,7 @@ class Engine:
                      % (len(d), len(served), _first_diff_bytes(d, served)),
                      clause + ":data")
         tseen = b"".join(b for b in res.get("tok_seen", []) if b is not None)
-        if res.get("tok_seen") is not None and tseen != d:
+        if res.get("tok_seen") and tseen != d:
             return V(clause, "the saved stream holds %d bytes but the "
                      "tokenizer received %d bytes (a block was saved that "
                      "the tokenizer never saw, or vice versa)" % (
@@ -896,15 +935,14 @@ class Engine:
             if od["kind"] == "join":
                 from auditok import make_silence
                 fn = o._v_fn
+                if not E and not os.path.exists(fn):
+                    continue   # nothing detected: no file is fine too
                 try:
-                    if od["fmt"] == "wav":
-                        d, hp = C.read_wav(fn)
-                        if hp != (sr, sw, ch):
-                            return V(c_join, "joined file header %r" % (hp,),
-                                     c_join + ":join_header")
-                    else:
-                        with open(fn, "rb") as f:
-                            d = f.read()
+                    d, hp = _read_either(fn, od["fmt"],
+                                         od.get("naming", "ext"))
+                    if hp is not None and hp != (sr, sw, ch):
+                        return V(c_join, "joined file header %r" % (hp,),
+                                 c_join + ":join_header")
                 except Exception as e:
                     return V(c_join, "joined file unreadable: %r" % (e,),
                              c_join + ":join_unreadable")
@@ -946,6 +984,23 @@ class Engine:
                                  "detection" % os.path.basename(nme),
                                  c_reg + ":region_data")
         return None
+
+
+def _read_either(fn, fmt, naming):
+    """(audio bytes, wav header or None).  When the format was conveyed by
+    the extension alone it is unambiguous; when an explicit export_format
+    contradicts / replaces the extension, which of the two wins is not fixed
+    by the statement: the audio is accepted in either container."""
+    if naming == "ext":
+        if fmt == "wav":
+            return C.read_wav(fn)
+        with open(fn, "rb") as f:
+            return f.read(), None
+    try:
+        return C.read_wav(fn)
+    except Exception:
+        with open(fn, "rb") as f:
+            return f.read(), None
 
 
 def _first_diff(a, b):
